@@ -1,6 +1,7 @@
 """C11 - stop and cancel end the whole execution tree; late results change
 nothing."""
 
+import math
 import random
 
 from checks import c10
@@ -33,7 +34,9 @@ def make_case(seed, tier):
     case['ops'] = [{'op': 'stop', 'state': state, 'message': MSG,
                     'target': rng.choice(['root', 'root', 'sub:0', 'sub:1',
                                           'sub:2']),
-                    'at_step': rng.randint(1, 160)}]
+                    'at_step': rng.randint(1, 160) if rng.random() < 0.4
+                    else int(round(math.exp(rng.uniform(
+                        math.log(3), math.log(120)))))}]
     if rng.random() < 0.3:
         case['faults'] = [{'at_step': rng.randint(5, 150), 'kind': 'delay',
                            'method': 'on_action_complete',
